@@ -36,6 +36,8 @@ def check(rep, tier, seed):
                     kinds.append("enc")
             if d is None:
                 ser = rng.choice([7000, 7000, 0x7fff8000, 0x80000000, 0xffe00000]) + (k * 16 + li) % 30000
+                if rng.chance(1, 8) and 0xffffffff not in serials:
+                    ser = 0xffffffff          # the all-ones serial number (-1 as a signed 32-bit value)
                 while (ser & 0xffffffff) in serials:
                     ser += 100003
                 serials.add(ser & 0xffffffff)
